@@ -191,6 +191,19 @@ func RecvDone(ch <-chan struct{}) {
 	}
 }
 
+// SendReady precedes a blocking send on a buffered channel: the thread is blocked, visibly to the
+// scheduler, until room() holds. A send on an unbuffered channel (capacity 0) is not modelled: it is
+// left to the runtime (a send nobody receives then shows as the run's timeout, which is inconclusive).
+func SendReady(room func() bool, capacity int) {
+	if S == nil || S.dead || S.cur == nil || capacity == 0 {
+		return
+	}
+	Yield("send")
+	if !room() {
+		Block("send", room)
+	}
+}
+
 // Cur returns the running logical thread.
 func Cur() *Thread {
 	if S == nil {
